@@ -9,6 +9,10 @@ fail=0
 for id in "${ids[@]}"; do
   d="seeded/$id"; [ -f "$d/patch.diff" ] || continue
   checks=$(jq -r '.expected_caught_by | join(" ")' "$d/meta.json")
+  if [ -n "${ONLY:-}" ]; then # ONLY="C01 C03": restrict to these checks (re-runs after a change to some checks)
+    keep=""; for c in $checks; do case " $ONLY " in *" $c "*) keep="$keep $c";; esac; done
+    checks="$keep"; [ -z "$checks" ] && continue
+  fi
   out=$(bin/try-mutant.sh "$d/patch.diff" $checks 2>&1)
   for c in $checks; do
     if grep -q "^== $c exit=1" <<<"$out"; then echo "CAUGHT  $id by $c: $(echo "$out" | grep -A3 "^== $c " | grep signature | head -1 | cut -c1-150)";
